@@ -264,7 +264,7 @@ impl DynamicBitfield {
         0 <= i <= u64::MAX && self.pages@.contains_key(p) && self.pages@[p].bit(i % 32768)
     }
     pub open spec fn wf(&self) -> bool {
-        &&& forall|p: u64| self.pages@.contains_key(p) ==> p <= self.biggest_page_index && p <= 0x1_ffff_ffff_ffff
+        &&& forall|p: u64| self.pages@.contains_key(p) ==> p <= self.biggest_page_index && p <= 0xffff_ffff_ffff
         &&& forall|p: u64| #![trigger self.pages@[p]] self.pages@.contains_key(p) && self.pages@[p].dirty ==> self.unflushed@.contains(p)
         &&& forall|j: int| 0 <= j < self.unflushed@.len() ==> self.pages@.contains_key(#[trigger] self.unflushed@[j])
     }
@@ -282,7 +282,7 @@ impl DynamicBitfield {
     tags: C08 C01 C02
     requires:
         old(self).wf(),
-        bitfield_update.start + bitfield_update.length <= u64::MAX
+        bitfield_update.start + bitfield_update.length <= 0x4000_0000_0000_0000
     ensures:
         final(self).wf(),
         forall|k: int| #![trigger final(self).bit(k)] final(self).bit(k) == (if bitfield_update.start <= k < bitfield_update.start + bitfield_update.length { !bitfield_update.drop } else { old(self).bit(k) }),
@@ -294,7 +294,7 @@ impl DynamicBitfield {
     tags: C08 C01 C02
     requires:
         old(self).wf(),
-        start + length <= u64::MAX
+        start + length <= 0x4000_0000_0000_0000
     ensures:
         final(self).wf(),
         forall|k: int| #![trigger final(self).bit(k)] final(self).bit(k) == (if start <= k < start + length { value } else { old(self).bit(k) }),
@@ -309,7 +309,7 @@ impl DynamicBitfield {
             j < 32768,
             length > 0 ==> i as int * 32768 + j + length == start + len0,
             length == 0 ==> i as int * 32768 + j >= start + len0,
-            start + len0 <= u64::MAX,
+            start + len0 <= 0x4000_0000_0000_0000,
             j == 0 || i as int * 32768 + j == start,
             start <= i as int * 32768 + j,
             forall|p: u64| p >= i ==> #[trigger] self.pages@.contains_key(p) == old(self).pages@.contains_key(p),
@@ -383,7 +383,8 @@ impl DynamicBitfield {
     tags: C08 C01
     result: r
     requires:
-        old(self).wf()
+        old(self).wf(),
+        index < 0x4000_0000_0000_0000
     ensures:
         final(self).wf(),
         forall|k: int| #![trigger final(self).bit(k)] final(self).bit(k) == (if k == index { value } else { old(self).bit(k) }),
@@ -449,9 +450,9 @@ impl DynamicBitfield {
         assert(s1.pages@.contains_key(id));
         let ghost infos0 = infos_to_flush@;
     after `let data = p.to_bytes();`:
-        assert(id <= 0x1_ffff_ffff_ffff);
+        assert(id <= 0xffff_ffff_ffff);
         assert(data@.len() == 4096);
-        assert(id * 4096 <= 0x1_ffff_ffff_ffff * 4096) by (nonlinear_arith) requires id <= 0x1_ffff_ffff_ffff;
+        assert(id * 4096 <= 0xffff_ffff_ffff * 4096) by (nonlinear_arith) requires id <= 0xffff_ffff_ffff;
     after `p.dirty = false;`:
         proof {
             let pg = self.pages@[id];
